@@ -20,9 +20,11 @@ pub enum Op {
     CliPassEncrypt,
     CliKeyGenerate,
     CliChangePass,
+    /// change-pass with new password == old password
+    CliChangePassSame,
 }
 
-const OPS: [Op; 6] = [Op::LibKeyEncrypt, Op::LibGenerate, Op::CliEncrypt, Op::CliPassEncrypt, Op::CliKeyGenerate, Op::CliChangePass];
+const OPS: [Op; 7] = [Op::LibKeyEncrypt, Op::LibGenerate, Op::CliEncrypt, Op::CliPassEncrypt, Op::CliKeyGenerate, Op::CliChangePass, Op::CliChangePassSame];
 
 pub struct Fixture {
     alice: Party,
@@ -105,9 +107,10 @@ fn exec(fx: &Fixture, op: Op) -> Result<Vec<(String, Vec<u8>)>, String> {
             let sk = r::unlock_key(&blob, b"genpw").ok_or("generated key does not unlock (REF)")?;
             Ok(vec![("generated key salt".into(), blob[4..36].to_vec()), ("CLI generated private key".into(), sk.to_vec())])
         }
-        Op::CliChangePass => {
+        Op::CliChangePass | Op::CliChangePassSame => {
             let sc = Scratch::new();
-            let out = proc::run(&Cmd::new(&["key", "change-pass", &fx.alice.locked, "--env-pass"]).env("KESTREL_PASSWORD", "alicepw").env("KESTREL_NEW_PASSWORD", "alicenew"), &sc.0);
+            let newpw = if op == Op::CliChangePass { "alicenew" } else { "alicepw" };
+            let out = proc::run(&Cmd::new(&["key", "change-pass", &fx.alice.locked, "--env-pass"]).env("KESTREL_PASSWORD", "alicepw").env("KESTREL_NEW_PASSWORD", newpw), &sc.0);
             if !out.ok() {
                 return Err(format!("kestrel key change-pass failed: {}", out.summary()));
             }
